@@ -1,5 +1,5 @@
 """Property -> rules mapping, floors, level texts."""
-from .rules import termination, streams, decoders, layouts
+from .rules import termination, streams, decoders, layouts, flow
 
 RULES = {}
 FLOORS = {}
@@ -18,8 +18,8 @@ reg("T4", termination.rule_T4, 4)
 for _i, _f in enumerate(("S1", "S2", "S3", "S4", "S5", "S6", "S7", "S8", "S9"), 1):
     reg(_f, getattr(streams, "rule_" + _f), 2)
 
-for _f in ("D1", "D2", "D3", "D4"):
-    reg(_f, getattr(decoders, "rule_" + _f), 2)
+for _f in ("D1", "D2", "D3", "D4", "D1a", "D1r", "D3a", "D3r"):
+    reg(_f, getattr(decoders, "rule_" + _f), 1)
 
 reg("L1a", layouts.rule_L1_akai_export, 40)
 reg("L1i", layouts.rule_L1_akai_info, 100)
@@ -32,30 +32,41 @@ reg("L2", layouts.rule_L2, 20)
 reg("L4", layouts.rule_L4, 20)
 reg("L5", layouts.rule_L5, 25)
 
+reg("L6", flow.rule_L6, 30)
+reg("L7", flow.rule_L7, 10)
+reg("L8r", flow.rule_L8r, 30)
+reg("L8a", flow.rule_L8a, 8)
+reg("L8c", flow.rule_L8c, 10)
+
 COMMON_ASSUMPTIONS = [
     "static analysis of /repo's source only: the package is never imported or executed by the check",
     "the `construct` and `numpy` libraries behave as documented (Pointer seeks absolutely, Prefixed back-patches its length, Struct parses fields in order)",
     "a discharged obligation is a structural necessary condition of the property; the behaviour itself (byte equality, equality over histories/schedules, numerical results) is NOT established",
 ]
 
+def _p(rules, explanation, extra_assumptions=()):
+    return {"rules": rules, "explanation": explanation, "assumptions": COMMON_ASSUMPTIONS + list(extra_assumptions)}
+
+
 PROPS = {
-    "C08": {
-        "rules": ["S5", "S7", "S3", "S4", "S6"],
-        "explanation": "tmp",
-        "assumptions": COMMON_ASSUMPTIONS,
-    },
-    "X": {"rules": ["S1", "S2", "S8", "S9"], "explanation": "tmp", "assumptions": []},
-    "C20": {"rules": ["L1i", "L1ri", "L2", "T4"], "explanation": "tmp", "assumptions": []},
-    "Y": {"rules": ["L1a", "L1r", "L1w", "L1c", "L1t", "L4", "L5"], "explanation": "tmp", "assumptions": []},
-    "C07": {"rules": ["S1", "S2", "S3", "T1", "D1", "D2", "D3", "D4"], "explanation": "tmp", "assumptions": []},
-    "C13": {
-        "rules": ["T1", "T2", "T3", "T4"],
-        "explanation": "Decides the termination/boundedness clauses of C13 that are visible in code shape: every `while` loop of the "
-                       "package carries a termination variant checked on every back-edge path of a hand-built CFG (T1), no `for` "
-                       "grows its own iterable (T2), every cycle of the resolved call graph is in a confirmed table with its side "
-                       "condition re-checked (T3), image-controlled counts/sizes are width-bounded or lazy (T4). NOT decided: "
-                       "complexity constants, loops inside construct/numpy, peak memory.",
-        "assumptions": COMMON_ASSUMPTIONS + ["sector_length/buffer_length attributes are positive (constructor sites pass positive constants)",
-                                             "the element parent relation is a tree (elements receive their parent from the container that creates them)"],
-    },
+    "C01": _p(["L1a", "L2", "L8a", "S1", "S3", "S4", "D1a", "D2", "D3a", "D4", "L7"], "tmp"),
+    "C02": _p(["L1r", "L2", "L4", "L5", "L8r", "D1r", "D2", "D3r", "D4", "S3", "S7", "T1"], "tmp"),
+    "C03": _p(["L8c", "T1"], "tmp"),
+    "C04": _p(["L1w", "L2", "L7"], "tmp"),
+    "C05": _p(["T2"], "tmp"),
+    "C06": _p(["T1"], "tmp"),
+    "C07": _p(["S1", "S2", "S3", "T1", "D1", "D2", "D3", "D4"], "tmp"),
+    "C08": _p(["S5", "S7", "S3", "S4", "S6"], "tmp"),
+    "C09": _p(["S8", "S3", "L1c", "L2"], "tmp"),
+    "C10": _p(["T1"], "tmp"),
+    "C11": _p(["S6", "S5", "S8"], "tmp"),
+    "C12": _p(["T2"], "tmp"),
+    "C13": _p(["T1", "T2", "T3", "T4"], "tmp"),
+    "C14": _p(["L1t", "L4", "L2"], "tmp"),
+    "C15": _p(["S4", "S9", "T1", "L1w"], "tmp"),
+    "C16": _p(["S6", "S8"], "tmp"),
+    "C17": _p(["T1"], "tmp"),
+    "C18": _p(["T2"], "tmp"),
+    "C19": _p(["T2"], "tmp"),
+    "C20": _p(["L1i", "L1ri", "L2", "L6", "T4"], "tmp"),
 }
